@@ -27,6 +27,23 @@ def build(spec: dict):
     return data.geometry_validate(spec, mode="dict")
 
 
+def build_derived(spec: dict, rng):
+    """The same geometry, but obtained the way application code often obtains one: by editing a copy of
+    another, already used, geometry (``model_copy(update=...)``).  Whatever the library remembered about the
+    other object must not follow the copy."""
+    from soundevent.geometry import operations as O
+
+    target = build(spec)
+    other = build(random_geom(rng, spec["type"], "dyadic"))
+    try:
+        O.compute_bounds(other)
+        hash(repr(other))
+        other._repr_html_()
+    except Exception:
+        pass
+    return other.model_copy(update={"coordinates": target.coordinates})
+
+
 def to_spec(geom) -> dict:
     return {"type": geom.type, "coordinates": _plain(geom.coordinates)}
 
